@@ -148,15 +148,18 @@ def _apply_common(piece, blk):
         k = opener + 1
         if s[k].text == 'move':
             k += 1
-        if s[k].text != '|':
+        if s[k].text == '||':
+            pname, bar2 = '_', k
+        elif s[k].text != '|':
             piece.counts['hint_skipped'] = piece.counts.get('hint_skipped', 0) + 1
             continue
-        pname = s[k + 1].text if s[k + 1].kind == 'ident' else '_'
-        if pname == 'mut':
-            pname = s[k + 2].text
-        bar2 = k + 1
-        while s[bar2].text != '|':
-            bar2 += 1
+        else:
+            pname = s[k + 1].text if s[k + 1].kind == 'ident' else '_'
+            if pname == 'mut':
+                pname = s[k + 2].text
+            bar2 = k + 1
+            while s[bar2].text != '|':
+                bar2 += 1
         closer = rtok.match_close(s, opener)
         piece.insert_after(bar2, ' ' + spec.replace('$1', pname) + ' {', 'closure_spec')
         piece.insert_before(closer, '}', 'closure_spec')
